@@ -532,4 +532,44 @@ theorem augment_translation_offset (n : Nat) (hn : 1 < n) (tx ty : R) (p : R × 
   simp only [Aff.apply]
   refine Prod.ext ?_ ?_ <;> simp only <;> field_simp <;> ring
 
+/-! ## the Dataset chain `size matcher → resizer → stride padding` -/
+
+/-- For the chain every Dataset's `_fill_cache` runs, when both integer targets are exact, the
+registration offset is exactly the half-pixel term of the **total** factor `f = eff·scale`:
+`(f − 1)/2` on both axes (stride padding adds nothing). -/
+theorem chain_offset_exact (h w mh mw sn sd st : Nat) (p : R × R) (hh : 0 < h) (hw : 0 < w)
+    (hmh : 0 < mh) (hmw : 0 < mw) (hne : h ≠ mh ∨ w ≠ mw) (hs : sn ≠ sd) (hsd : 0 < sd)
+    (eff : R) (heff : eff = ((sizematch h w (some mh) (some mw)).effN : R) / (sizematch h w (some mh) (some mw)).effD)
+    (e1 : ((sizematch h w (some mh) (some mw)).tw : R) = (w : R) * eff)
+    (e2 : ((sizematch h w (some mh) (some mw)).th : R) = (h : R) * eff)
+    (e3 : ((resizeSize mw sn sd : Nat) : R) = (mw : R) * ((sn : R) / sd))
+    (e4 : ((resizeSize mh sn sd : Nat) : R) = (mh : R) * ((sn : R) / sd)) :
+    let s := run Nat.cast h w [.sizematch (some mh) (some mw), .resize sn sd, .pad st]
+    (s.content.apply p).1 - (s.kp.apply p).1 = (eff * ((sn : R) / sd) - 1) / 2 ∧
+    (s.content.apply p).2 - (s.kp.apply p).2 = (eff * ((sn : R) / sd) - 1) / 2 := by
+  have hap := (sizematch_rel (R := R) h w mh mw hh hw hne).1
+  have hhR : (h : R) ≠ 0 := by exact_mod_cast hh.ne'
+  have hwR : (w : R) ≠ 0 := by exact_mod_cast hw.ne'
+  have hmhR : (mh : R) ≠ 0 := by exact_mod_cast hmh.ne'
+  have hmwR : (mw : R) ≠ 0 := by exact_mod_cast hmw.ne'
+  simp only [run, List.foldl, step, St.init, hap, if_true, if_pos hs, Option.getD_some,
+    Aff.apply_comp, Aff.apply_ident, resizeContent, scaleKp, Aff.apply_axis, ← heff, e1, e2, e3, e4]
+  have r1 : (w : R) * eff / w = eff := by field_simp
+  have r2 : (h : R) * eff / h = eff := by field_simp
+  have r3 : (mw : R) * ((sn : R) / sd) / mw = (sn : R) / sd := by field_simp
+  have r4 : (mh : R) * ((sn : R) / sd) / mh = (sn : R) / sd := by field_simp
+  rw [r1, r2, r3, r4]
+  constructor <;> ring
+
+/-- … hence the chain is registered (`< 1` px) exactly when the total factor is below 3
+(F-C04 is the other half: `f ≥ 3 → offset ≥ 1`). -/
+theorem chain_registered_iff_lt_three (f : R) (hf : 0 < f) :
+    (|(f - 1) / 2| < 1 ↔ f < 3) ∧ (3 ≤ f → 1 ≤ (f - 1) / 2) := by
+  refine ⟨⟨fun h => ?_, fun h => ?_⟩, fun h => by linarith⟩
+  · have := (abs_lt.mp h).2; linarith
+  · rw [abs_lt]; constructor <;> linarith
+
+example : sizematch 16 16 (some 32) (some 32) = ⟨32, 32, 32, 16, true⟩ ∧ resizeSize 32 1 2 = 16 := by
+  decide
+
 end SleapVerif.C04
